@@ -167,8 +167,24 @@ def hostile_ints(rnd, maxima):
 
 
 def mutate_text(data, rnd, maxima):
-    kind = rnd.choice(["int", "int", "int", "int", "trunc", "trunc", "seg", "nul", "dropline", "dupline", "bigint", "hdr", "hdrline"])
+    kind = rnd.choice(["int", "int", "int", "int", "trunc", "trunc", "seg", "nul", "dropline", "dupline", "bigint", "hdr", "hdrline",
+                       "str", "str"])
     lines = data.split(b"\n")
+    if kind == "str":            # string literals "h<len>:<chars>": hostile lengths, and the input ending inside the literal
+        lits = [(m.start(), m.end(), int(m.group(1))) for m in re.finditer(rb"(?m)^h(\d+):", data)]
+        if not lits:
+            kind = "trunc"
+        else:
+            st, en, ln = rnd.choice(lits)
+            how = rnd.choice(["len", "len", "cut", "cut", "cutlen"])
+            if how == "len":
+                v = rnd.choice([ln + 1, ln + 2, ln + 100, 2000000000, INT_MAX, 0, max(0, ln - 1), 65536])
+                return data[:st] + b"h%d:" % v + data[en:], "strlen@%d=%d" % (st, v)
+            cut = en + rnd.randrange(0, ln + 1)
+            if how == "cut":
+                return data[:cut], "strcut@%d" % cut
+            v = rnd.choice([ln + 50, 2000000000])
+            return (data[:st] + b"h%d:" % v + data[en:])[:cut + len(b"%d" % v) - len(b"%d" % ln)], "strcutlen@%d=%d" % (st, v)
     if kind == "hdrline":        # every count of one header line becomes the same hostile value
         i = rnd.randrange(1, 10)
         v = rnd.choice([INT_MAX, INT_MAX, INT_MAX - 1, 1073741824, 0, 65536])
@@ -210,6 +226,21 @@ def mutate_text(data, rnd, maxima):
     if kind == "dropline":
         return b"\n".join(lines[:i] + lines[i + 1:]), "drop@%d" % i
     return b"\n".join(lines[:i + 1] + lines[i:]), "dup@%d" % i
+
+
+def string_mutations(data):
+    """Every text input with a string literal "h<len>:<chars>" (first and last literal): hostile lengths, and the
+    input ending at every position inside the literal, with the true and with a hostile length."""
+    lits = [(m.start(), m.end(), int(m.group(1))) for m in re.finditer(rb"(?m)^h(\d+):", data)]
+    out = []
+    for st, en, ln in ([lits[0], lits[-1]] if len(lits) > 1 else lits):
+        for v in (ln + 1, ln + 100, 2000000000, INT_MAX, 0, max(0, ln - 1)):
+            out.append((data[:st] + b"h%d:" % v + data[en:], "strlen@%d=%d" % (st, v)))
+        for k in sorted({0, 1, ln // 2, max(0, ln - 1), ln}):
+            out.append((data[:en + k], "strcut@%d+%d" % (st, k)))
+            big = data[:st] + b"h2000000000:" + data[en:]
+            out.append((big[:st + len(b"h2000000000:") + k], "strcutbig@%d+%d" % (st, k)))
+    return out
 
 
 def mutate_binary(data, walk, rnd, maxima):
@@ -331,6 +362,9 @@ def make_inputs(tier, rnd, exe):
                                 r = (swapped[:len(mdat)], r[1])
                 if r and r[0] not in (text, binary, swapped):
                     emit("%s_%s_m%d.nl" % (base, tagc, j), r[0], "mut", base)
+            if tagc == "t":
+                for j2, (mdat, _lab) in enumerate(string_mutations(data)):
+                    emit("%s_t_str%d.nl" % (base, j2), mdat, "mut", base)
     # a few degenerate byte strings
     edge = [b"", b"g", b"b", b"\0", b"g3 1 1 0\n", b"b3 1 1 0\n 1 0 0\n", b"g3 1 1 0\n" + b" 0\n" * 9, b"x" * 10,
             b"g" + b"9" * 400 + b"\n", b"g3 1 1 0\n 1 0 0\n 0 0\n 0 0\n 0 0 0\n 0 0 0 1\n 0 0 0 0 0\n 0 0\n 0 0\n 0 0 0 0 0\n",
